@@ -58,7 +58,7 @@ def gen_cases(tier, seed):
     for i in range(60 if tier == "quick" else 400):
         cases.append({"kind": "history", "n_ops": [10, 20, 40][i % 3], "i": i})
     for i in range(100 if tier == "quick" else 400):
-        cases.append({"kind": "helper", "scenario": ["ui_json_read", "monitored_copy", "copy_out", "context_manager", "fetch_active", "ui_json_write", "elevate_then_default", "ui_json_then_default", "fallback_read_only", "helper_requests_read"][i % 10], "i": i})
+        cases.append({"kind": "helper", "scenario": ["ui_json_read", "monitored_copy", "copy_out", "context_manager", "fetch_active", "ui_json_write", "elevate_then_default", "ui_json_then_default", "fallback_read_only", "helper_requests_read", "save_as_read_only", "read_session_of_writable_workspace"][i % 12], "i": i})
     return cases
 
 
@@ -693,6 +693,63 @@ def run_helper(case, rec, rng, path, index, d):
         finally:
             holder.close()
         judge_close(rec, watch, label)
+    elif sc == "save_as_read_only":
+        # a workspace opened for reading is saved under another name: the same object now serves the copy, and it is still a
+        # workspace its user opened read-only
+        ro = Workspace(path, mode="r")
+        new_path = os.path.join(d, f"saved_{os.getpid()}_{case['i']}.geoh5")
+        ro.save_as(new_path)
+        watch2 = FileWatch(new_path)
+        rec.check("C10.mode", ro.geoh5.mode == "r", op="save_as", cls=label, attr=sc, detail=f"after save_as the read-only workspace holds the copy in mode {ro.geoh5.mode!r}")
+        e = ro.get_entity(obj_uid)[0]
+        from geoh5py.objects import Points
+
+        writes = [("rename", lambda: setattr(e, "name", "x")), ("create", lambda: Points.create(ro, vertices=np.zeros((2, 3)), name="new")), ("remove", lambda: ro.remove_entity(ro.get_entity(obj_uid)[0]))]
+        for wname, fn in writes:
+            exc = None
+            try:
+                fn()
+            except Exception as e2:  # noqa: BLE001
+                if not exc_origin(e2)[0]:
+                    raise
+                exc = e2
+            rec.check("C10.must-raise", exc is not None, op="write-after-save_as:" + wname, cls=label, attr=sc, detail=f"{wname} returned without an error on the copy held by a workspace that was opened read-only")
+            watch2.judge(rec, ro, "write-after-save_as:" + wname, label, sc)
+        e = None
+        ro.close()
+        judge_close(rec, watch2, label, "save_as")
+        rec.check("C10.bytes", watch.sha() == watch.h0, op="save_as", cls=label, attr=sc + ":original", detail="save_as changed the file it was read from")
+    elif sc == "read_session_of_writable_workspace":
+        # a workspace object constructed writable, then closed and opened again for reading only: that session is read-only,
+        # whatever the object was constructed with and whatever flags the session left behind
+        rw = Workspace(path)
+        rw.close()
+        watch = FileWatch(path)
+        rw.open(mode="r")
+        rec.check("C10.mode", rw.geoh5.mode == "r", op="open(mode='r')", cls=label, attr=sc, detail=f"open(mode='r') gave mode {rw.geoh5.mode!r}")
+        e = rw.get_entity(obj_uid)[0]
+        exc = None
+        try:
+            e.name = "renamed in a read session"
+        except Exception as e2:  # noqa: BLE001
+            if not exc_origin(e2)[0]:
+                raise
+            exc = e2
+        rec.check("C10.must-raise", exc is not None, op="write-in-read-session", cls=label, attr=sc, detail="a write in a session opened with mode='r' was accepted")
+        for hole in [x for x in rw.objects if type(x).__name__ == "ConcatenatedDrillhole"][:1]:
+            try:
+                hole.name = "refused"
+                rec.fail("C10.must-raise", op="write-in-read-session:concatenated", cls=label, attr=sc, detail="renaming a concatenated hole in a read session was accepted")
+            except Exception as e2:  # noqa: BLE001
+                if not exc_origin(e2)[0]:
+                    raise
+                rec.see("refused-write-on-concatenated")
+        if case["i"] % 2:
+            rw.repack = True  # the flag a removal sets: nothing was removed, and the session is read-only anyway
+        watch.judge(rec, rw, "write-in-read-session", label, sc)
+        e = None
+        rw.close()
+        judge_close(rec, watch, label, "open(mode='r')")
     elif sc == "helper_requests_read":
         # a closed workspace that was constructed writable is handed to helpers that ask for (or imply) read access
         rw = Workspace(path)
